@@ -32,7 +32,9 @@ KINDS = ["xor_add", "mul", "div", "mod", "sdiv", "addmod", "mulmod", "exp", "exp
 
 def case(seed, idx, res, tier):
     rng = random.Random(f"c04-{seed}-{idx}")
-    spec, setup, tests = testgen.gen_contract(rng, 3, kinds=KINDS, force_first=sorted(set(KINDS))[idx % len(set(KINDS))])
+    symbolic_setup = rng.random() < 0.35
+    spec, setup, tests = testgen.gen_contract(rng, 3, kinds=KINDS, force_first=sorted(set(KINDS))[idx % len(set(KINDS))], symbolic_setup=symbolic_setup)
+    res["features"][f"symbolic_setup:{symbolic_setup}"] += 1
     solver = "z3" if rng.random() < 0.15 else "yices"
     codes = set() if rng.random() < 0.2 else {1, 0x11}
     ov = dict(solver=solver, panic_error_codes=set(codes), loop=5, storage_layout=rng.choice(["solidity", "generic"]))
@@ -84,7 +86,14 @@ def case(seed, idx, res, tier):
                     continue
                 # (2) replay
                 vals = A.model_values(t.fn, m)
-                rp = A.replay(spec, t.fn, vals, setup_fn=setup)
+                tape = None
+                if symbolic_setup:
+                    # setUp creates two fresh symbols (s: stored, constrained s > 100; u: not stored, constrained u == 7): the counterexample has to
+                    # give them values that pass setUp's assumptions; a symbol the model does not mention reads 0
+                    byname = {k: v.value for k, v in m.model.items()}
+                    tape = [next((v for k, v in byname.items() if k.startswith("halmos_s_uint256")), 0), next((v for k, v in byname.items() if k.startswith("halmos_u_uint256")), 0)]
+                    res["counters"]["replays_with_symbolic_setup"] += 1
+                rp = A.replay(spec, t.fn, vals, setup_fn=setup, tape=tape)
                 res["counters"]["replays"] += 1
                 res["distinct"].append(f"{idx}:{t.fn.sig}:{sorted((k.split('_')[1], v.value) for k, v in m.model.items())}")
                 if rp.status == "unsupported":
